@@ -124,6 +124,17 @@ def ones_like(a, dtype=None, **k):
 
 
 @_ov
+def full(shape, fill_value, dtype=None, **k):
+  # a float buffer that the code later writes into element-wise: object array in symbolic mode (an integer fill keeps NumPy's
+  # integer buffer: that is real behaviour -- later float assignments are truncated)
+  if _isobj(fill_value):
+    return _objzeros(shape, fill_value)
+  if _Flag.on and dtype in (float, _np.float64) or (_Flag.on and dtype is None and isinstance(fill_value, (float, _np.floating))):
+    return _objzeros(shape, _np.float64(fill_value))
+  return _np.full(shape, fill_value, dtype=dtype, **k)
+
+
+@_ov
 def full_like(a, fill_value, **k):
   if _isobj(a) or _isobj(fill_value):
     return _objzeros(_np.shape(a), fill_value)
